@@ -15,7 +15,7 @@ PROPS = {
                 trusted=TRUSTED,
                 explanation="[P] tokenisers, label/name extraction, Program.match item accounting, SequenceBase.match; [B] lexical content of printed "
                             "text vs source (bounded_tokens.py), layout independence of the reader items (bounded_layout.py)",
-                enum=["bounded_tokens.py", "bounded_layout.py --only C04"],
+                enum=["bounded_tokens.py", "bounded_layout.py --only C04", "bounded_harvest.py --only C02"],
                 witnesses=["c02_tab_inside_character_literal_is_expanded", "c02_statement_after_leading_semicolon_is_lost", "c02_units_dropped_around_anonymous_main", "c02_char_selector_placeholder_leak", "c02_char_selector_kind_len_reordered",
                            "c02_semicolon_join_lowercases_names", "c02_initialiser_after_parenthesised_char_length"]),
     "C06": dict(level="other",
@@ -71,7 +71,7 @@ PROPS = {
                 trusted=TRUSTED,
                 explanation="[P] F17 (Loop_Control, Format_Item, Proc_Decl of Fortran2008); [E] P2, replaced constituents; [B] P3 at program level on a fixed corpus",
                 witnesses=["c17_open_without_unit", "c17_procedure_stmt_text_differs"]),
-    "C10": dict(level="other", enum=["bounded_trees.py --only C10"],
+    "C10": dict(level="other", enum=["bounded_trees.py --only C10", "bounded_harvest.py --only C10"],
                 claim="node construction and navigation contracts: Base.__new__ statement branch stores the consumed item on the node, the parse cache "
                       "returns the identical object per (item, class), get_root returns an ancestor without parent, BlockBase.match accounts for every "
                       "consumed item in content order",
@@ -96,7 +96,7 @@ PROPS = {
                 trusted=TRUSTED,
                 explanation="[P] R13, R14, F3 (the collector takes every leading comment/include/directive in any order); [B] directive insertion at every boundary, also among retained comments; Cpp_* rules not under contract",
                 witnesses=["c14_include_with_angle_brackets_is_reprinted_with_quotes", "c14_comment_after_ifdef_is_rejected", "c14_directive_between_components_splits_the_component_part", "c14_directive_backslash_at_eof", "c14_directive_with_semicolon", "c14_directive_before_anonymous_main_program"]),
-    "C18": dict(level="other", enum=["bounded_trees.py --only C18"],
+    "C18": dict(level="other", enum=["bounded_trees.py --only C18", "bounded_harvest.py --only C18"],
                 claim="deep-copy protocol: Base.__getnewargs__ returns (string, None, True) and every class with its own __new__ (Base, Comment, "
                       "Directive; Program delegates) returns a fresh uninitialised instance for those arguments without touching a reader",
                 trusted=TRUSTED + "; CPython copy/pickle protocol (reconstruction through __new__(*__getnewargs__()) then __dict__ copy)",
@@ -130,7 +130,7 @@ PROPS = {
                 explanation="[P] R1, R2, R7; [B] detection + fixed branch",
                 witnesses=["c05_blanks_at_the_end_of_a_continued_fixed_form_literal_are_lost", "c05_fixed_comment_with_ampersand", "c05_labelled_first_statement", "c05_first_statement_starting_with_c",
                            "c05_zero_in_column_6_is_not_a_continuation"]),
-    "C01": dict(level="other", enum=["bounded_trees.py --only C01"],
+    "C01": dict(level="other", enum=["bounded_trees.py --only C01", "bounded_harvest.py --only C01"],
                 claim="round trip decided on a catalogue of programs (print, re-parse, same tree, same text; both standards, three comment modes); "
                       "label / construct-name re-extraction proved; the generic match/tostr lemmas are not yet under contract",
                 trusted=TRUSTED + "; bounded catalogue",
